@@ -37,3 +37,71 @@ pub fn publication_builtin_topic_data(key: [u8; 16], strength: i32) -> Publicati
         representation: Default::default(),
     }
 }
+
+// ---- engine `match` (C15, C37): the two request/offered checks and the partition pattern translation
+pub use crate::dcps::dcps_domain_participant::discovery_methods::{
+    verif_fnmatch_to_regex, verif_get_discovered_reader_incompatible_qos_policy_list,
+    verif_get_discovered_writer_incompatible_qos_policy_list,
+};
+use crate::builtin_topics::SubscriptionBuiltinTopicData;
+use crate::infrastructure::qos::{DataReaderQos, DataWriterQos, PublisherQos, SubscriberQos};
+
+/// The discovered-reader record a reader with these QoS would announce (names and keys fixed).
+pub fn subscription_builtin_topic_data_from_qos(
+    key: [u8; 16],
+    qos: &DataReaderQos,
+    subscriber_qos: &SubscriberQos,
+) -> SubscriptionBuiltinTopicData {
+    SubscriptionBuiltinTopicData {
+        key: BuiltInTopicKey { value: key },
+        participant_key: BuiltInTopicKey { value: [0; 16] },
+        topic_name: Default::default(),
+        type_name: Default::default(),
+        type_information: None,
+        durability: qos.durability.clone(),
+        deadline: qos.deadline.clone(),
+        latency_budget: qos.latency_budget.clone(),
+        liveliness: qos.liveliness.clone(),
+        reliability: qos.reliability.clone(),
+        ownership: qos.ownership.clone(),
+        destination_order: qos.destination_order.clone(),
+        user_data: qos.user_data.clone(),
+        time_based_filter: qos.time_based_filter.clone(),
+        presentation: subscriber_qos.presentation.clone(),
+        partition: subscriber_qos.partition.clone(),
+        topic_data: Default::default(),
+        group_data: subscriber_qos.group_data.clone(),
+        representation: qos.representation.clone(),
+        type_consistency: qos.type_consistency.clone(),
+    }
+}
+
+/// The discovered-writer record a writer with these QoS would announce (names and keys fixed).
+pub fn publication_builtin_topic_data_from_qos(
+    key: [u8; 16],
+    qos: &DataWriterQos,
+    publisher_qos: &PublisherQos,
+) -> PublicationBuiltinTopicData {
+    PublicationBuiltinTopicData {
+        key: BuiltInTopicKey { value: key },
+        participant_key: BuiltInTopicKey { value: [0; 16] },
+        topic_name: Default::default(),
+        type_name: Default::default(),
+        type_information: None,
+        durability: qos.durability.clone(),
+        deadline: qos.deadline.clone(),
+        latency_budget: qos.latency_budget.clone(),
+        liveliness: qos.liveliness.clone(),
+        reliability: qos.reliability.clone(),
+        lifespan: qos.lifespan.clone(),
+        user_data: qos.user_data.clone(),
+        ownership: qos.ownership.clone(),
+        ownership_strength: qos.ownership_strength.clone(),
+        destination_order: qos.destination_order.clone(),
+        presentation: publisher_qos.presentation.clone(),
+        partition: publisher_qos.partition.clone(),
+        topic_data: Default::default(),
+        group_data: publisher_qos.group_data.clone(),
+        representation: qos.representation.clone(),
+    }
+}
